@@ -19,7 +19,7 @@ from typing import Any
 from harness.core import MachineryFailure, Outcome, Violation, run_tlc, scratch, seed, tlc_must_pass, validate_trace
 
 DIRS = ['s1', 's2']
-NAMES = ['fa', 'fv', 'fe']
+NAMES = ['fa', 'fv', 'fe', 'fb']
 KIDS = ['00112233445566778899aabbccddee01']
 MPS = ['mm1']
 
@@ -31,12 +31,15 @@ class StoreDriver:
         self.s = Session(da, 'media')
         src = da.blob_folder.parent.parent / 'srcmedia'
         self.content = {}
+        self.edited: set[str] = set()     # names whose stored file the server has rewritten since the upload
 
     def load_content(self, fixtures_dir) -> None:
         self.content = {
             'fa': (fixtures_dir / 'bbb' / 'bbb_t1.mp4').read_bytes(),
             'fv': (fixtures_dir / 'bbb' / 'bbb_v7.mp4').read_bytes(),
             'fe': (fixtures_dir / 'bbb' / 'bbb_a1_enc.mp4').read_bytes(),
+            # not a fragmented file: indexing it leaves a media_file_error row behind
+            'fb': (fixtures_dir / 'moov.mp4').read_bytes(),
         }
 
     # -- projection -----------------------------------------------------------------------
@@ -67,10 +70,11 @@ class StoreDriver:
                        for pk, par, st in con.execute('select pk, parent_pk, stream_pk from period')]
             adps = [{'pk': pk, 'period': p if p is not None else -1, 'ctype': ct or ''} for pk, p, ct in con.execute(
                 'select a.pk, a.period_pk, c.name from adaptation_set a left join content_type c on c.pk = a.content_type_pk')]
+            errors = [{'pk': pk, 'media': m if m is not None else -1} for pk, m in con.execute('select pk, media_pk from media_file_error')]
         finally:
             con.close()
         return {'streams': streams, 'files': files, 'blobs': sorted(blobs), 'keys': keys, 'links': links, 'mps': mps,
-                'periods': periods, 'adps': adps}
+                'periods': periods, 'adps': adps, 'errors': errors}
 
     def _spk(self, st, d):
         return next((s['pk'] for s in st['streams'] if s['dir'] == d), None)
@@ -104,6 +108,7 @@ class StoreDriver:
             js = r.get_json(silent=True) or {}
             mfid = js.get('pk')
             if mfid:
+                self.edited.discard(b)
                 s.request('GET', f'/media/index/{mfid}?csrf_token={s.mint("files")}&ajax=1')
             return r.status_code, 1 if mfid else 0, spk
         if op == 'delete_media':
@@ -112,6 +117,21 @@ class StoreDriver:
             r = s.request('DELETE', f'/stream/{spk}/{mfid}/delete?csrf_token={s.mint("files")}&ajax=1')
             js = r.get_json(silent=True) or {}
             return r.status_code, 1 if js.get('deleted') else 0, mfid
+        if op == 'edit_media':
+            f = self._file(st, a)
+            spk, mfid = (f['stream'], f['pk']) if f else (anyspk, 9999)
+            track = 1
+            if f:
+                con = sqlite3.connect(f'file:{self.da.instance / "models.db3"}?mode=ro', uri=True)
+                try:
+                    row = con.execute('select track_id from media_file where pk = ?', (mfid,)).fetchone()
+                    track = row[0] if row and row[0] else 1
+                finally:
+                    con.close()
+            r = s.request('POST', f'/stream/{spk}/{mfid}/edit', data={'csrf_token': s.mint('files'), 'track_id': str(track), 'lang': b})
+            if f and r.status_code in (200, 302):
+                self.edited.add(a)
+            return r.status_code, 1 if f and r.status_code == 302 else 0, mfid
         if op == 'set_tref':
             spk = self._spk(st, a) or 9999
             srow = next((x for x in st['streams'] if x['pk'] == spk), None)
@@ -168,7 +188,7 @@ class StoreDriver:
         back = 1
         dirs = {s['pk']: s['dir'] for s in st['streams']}
         for f in st['files']:
-            if f['indexed'] and f['stream'] in dirs and f['name'] in self.content:
+            if f['indexed'] and f['stream'] in dirs and f['name'] in self.content and f['name'] not in self.edited:
                 r = c.get(f"/dash/odvod/{dirs[f['stream']]}/{f['name']}.mp4", headers={'Range': 'bytes=0-'})
                 if r.status_code != 206 or r.data != self.content[f['name']]:
                     back = 0
@@ -176,6 +196,15 @@ class StoreDriver:
 
 
 SCRIPTS = [
+    # a file that cannot be indexed is deleted, directly and with its stream
+    [('add_stream', 's1', ''), ('upload', 's1', 'fb'), ('upload', 's1', 'fv'), ('delete_media', 'fb', ''), ('upload', 's1', 'fb'),
+     ('upload', 's1', 'fb'), ('delete_stream', 's1', '')],
+    # editing a media file: a valid and an invalid language tag (the latter leaves a media_file_error row), then deletions
+    [('add_stream', 's1', ''), ('upload', 's1', 'fv'), ('upload', 's1', 'fa'), ('edit_media', 'fa', 'fra'), ('edit_media', 'fa', 'xyz'),
+     ('delete_media', 'fa', ''), ('upload', 's1', 'fa'), ('edit_media', 'fa', 'xyz'), ('upload', 's1', 'fa'), ('edit_media', 'fa', 'xyz'),
+     ('delete_stream', 's1', '')],
+    [('add_stream', 's2', ''), ('upload', 's2', 'fv'), ('edit_media', 'fv', 'xyz'), ('set_tref', 's2', 'fv'), ('edit_media', 'nope', 'eng'),
+     ('delete_media', 'fv', '')],
     # a period keeps pointing at a deleted stream
     [('add_stream', 's1', ''), ('upload', 's1', 'fv'), ('set_tref', 's1', 'fv'), ('add_mps', 'mm1', 's1'), ('delete_stream', 's1', '')],
     # replace a stream by adding its directory again
@@ -202,7 +231,7 @@ def random_history(rng: random.Random, n: int) -> list[tuple[str, str, str]]:
     h: list[tuple[str, str, str]] = [('add_stream', rng.choice(DIRS), '')]
     for _ in range(n):
         op = rng.choice(['add_stream', 'delete_stream', 'upload', 'upload', 'upload', 'delete_media', 'set_tref', 'set_tref',
-                         'add_key', 'delete_key', 'add_mps', 'delete_mps'])
+                         'add_key', 'delete_key', 'add_mps', 'delete_mps', 'edit_media'])
         if op in ('add_stream', 'delete_stream'):
             h.append((op, rng.choice(DIRS), ''))
         elif op == 'upload':
@@ -211,6 +240,8 @@ def random_history(rng: random.Random, n: int) -> list[tuple[str, str, str]]:
             h.append((op, rng.choice(DIRS), rng.choice(NAMES[:2])))
         elif op == 'delete_media':
             h.append((op, rng.choice(NAMES), ''))
+        elif op == 'edit_media':
+            h.append((op, rng.choice(NAMES), rng.choice(['eng', 'xyz', 'fra'])))
         elif op in ('add_key', 'delete_key'):
             h.append((op, KIDS[0], ''))
         elif op == 'add_mps':
